@@ -96,6 +96,7 @@ func genC09(seed uint64) *Plan {
 	pr := DefaultProfile()
 	pr.MinPeers, pr.MaxPeers = 3, 5
 	pr.RichAttrProb = 0.8
+	pr.LongPathProb = 0.04
 	pr.RoleProb = 0.5
 	pr.AddPathTXProb = 0.3
 	pr.W = map[string]int{"announce": 10, "withdraw": 3, "wait": 1, "peer_close": 1, "reconnect": 1, "export": 1}
